@@ -53,6 +53,8 @@ struct WaitGroupInner {
 impl Drop for WaitGroupInner {
     #[inline]
     fn drop(&mut self) {
+        #[cfg(feature = "verif-hooks")]
+        super::verif::point("wg_inner_drop");
         self.waker.wake();
     }
 }
@@ -77,7 +79,11 @@ impl Future for WaitGroupFuture {
         match self.0.upgrade() {
             None => Poll::Ready(()),
             Some(wg) => {
+                #[cfg(feature = "verif-hooks")]
+                super::verif::point("wg_poll_upgraded");
                 wg.waker.register(cx.waker());
+                #[cfg(feature = "verif-hooks")]
+                super::verif::point("wg_poll_registered");
                 Poll::Pending
             },
         }
